@@ -1551,6 +1551,9 @@ class Stage:
         elif grid == 'integrator':
             if 'refine' in kwargs and kwargs["refine"] is not None:
                 time, res = self._grid_intg_fine(self, expr, grid, **kwargs)
+            elif include_last and len(self._method.signals)>0 and depends_on(MX(expr), vvcat(list(self._method.signals.keys()))):
+                # bspline signals inside a control interval are evaluated by the fine-sampling path only
+                time, res = self._grid_intg_fine(self, expr, grid, refine=1, **{k: v for k, v in kwargs.items() if k!="refine"})
             else:
                 time, res = self._grid_integrator(self, expr, grid, **kwargs)
         elif grid == 'integrator_roots':
